@@ -26,6 +26,11 @@ extern lzma_ret lzma_lzma_encoder_init(lzma_next_coder *next,
 
 extern uint64_t lzma_lzma_encoder_memusage(const void *options);
 
+/// Like lzma_lzma_encoder_memusage() but with at least history_min bytes
+/// of history (before_size + dict_size) like lzma2_encoder_init() requires.
+extern uint64_t lzma_lzma_encoder_memusage_history(
+		const void *options, uint32_t history_min);
+
 extern lzma_ret lzma_lzma_props_encode(const void *options, uint8_t *out);
 
 
